@@ -9,7 +9,8 @@ cd /repo || exit 2
 if [ -n "$(git status --porcelain --untracked-files=no)" ]; then echo "/repo not clean"; exit 2; fi
 git apply "$patch" || { echo "patch does not apply"; exit 2; }
 rm -rf /tmp/evidence_backup && cp -r /verif/evidence /tmp/evidence_backup
-trap 'git -C /repo checkout -- . ; rm -rf /verif/evidence; cp -r /tmp/evidence_backup /verif/evidence' EXIT
+# (after the revert the harness is rebuilt, so that probe / drive are not left over from the seeded tree)
+trap 'git -C /repo checkout -- . ; rm -rf /verif/evidence; cp -r /tmp/evidence_backup /verif/evidence; (cd /verif/harness && CARGO_NET_OFFLINE=true cargo build --release --offline >/dev/null 2>&1)' EXIT
 cd /verif
 for p in "$@"; do
   VERIF_TIER=${TIER:-quick} ./check $p --tier ${TIER:-quick} > /tmp/seedtest_$p.out 2>&1
